@@ -26,9 +26,15 @@ Abstractions (each one is exercised by the correspondence run of engine `api`):
   legacy file format: the obsolete arrays `op`/`presenter`/`other` and
   `allow-subgroups`, which `upgradeDescription` (`Desc.upgrade`) folds into
   the modern fields whenever a file is read.
-* No group is live in memory (`group.Get` returns nil), the configuration and
-  group files parse, time does not pass (a token is valid, expired, without
-  expiry or not yet valid), the canonical host is unset.
+* `getDescription` resolves the name and reads the file, as `group.GetDescription`
+  does when the group is not live in memory.  For live groups (engine op `live`)
+  the real function may return the group's cached description; the last section
+  transcribes that (`getDescriptionLive`, `addLive`) and Props/C17Live.lean proves
+  it returns the same at every reachable state, so the handlers below need no
+  live table.  Live groups have no clients.
+* The configuration and group files parse, time does not pass (a token is valid,
+  expired, without expiry or not yet valid), the canonical host is unset.
+* Write faults (engine op `freq`): `handleFault`, second-last section.
 A nil dereference in the Go code is the outcome `crash`.
 -/
 namespace Galene.Api
@@ -903,5 +909,86 @@ def handle (fx : Fixes) (st : State) (r : Request) : Outcome × State :=
   if b.cors && r.method = .OPTIONS then done st { status := 200 }
   else if !authorised st r.cred b.auth then done st { status := 401, body := .haha }
   else act fx st r b.action
+
+/-! ### Requests under a write fault (engine op `freq`)
+
+While the file-size limit of the process is `limit` bytes (RLIMIT_FSIZE; SIGXFSZ is ignored by the
+Go runtime) a `write(2)` that would make a regular file longer than `limit` is cut short or fails
+with EFBIG.  Of the handlers' effects on definition files only `rewriteDescriptionFile` writes:
+`json.Encoder.Encode` returns the error, the temporary file is closed and removed, the error goes
+back through `UpdateDescription`/`UpdateUser`/`DeleteUser`/`SetUserPassword`/`SetKeys` to
+`httpError` (500), and nothing has changed.  `DeleteDescription` (an unlink) and every read are
+not affected.  `rewrite` is the last step of every handler that calls it and is called at most
+once per request, so "the request as it would have run, except that a successful `rewrite`
+becomes the error" is the request under the fault.  (Requests that rewrite the token file are
+engine `store`'s business, C16; the generator does not issue them under a fault.) -/
+
+/-- did the request (re)write a definition file? -/
+def wroteGroupFile (st st' : State) : Bool := st'.groups.any fun p => lookup p.1 st.groups ≠ some p.2
+
+/-- a lower bound of the length in bytes of what `rewriteDescriptionFile` writes for `d`:
+`{}` and a newline, or at least `{"description":"` … `"}` and a newline around the description -/
+def Desc.sizeLowerBound (d : Desc) : Nat := if d.content = 0 then 3 else d.content + 19
+
+/-- Does the write of the definition files that the request writes fail under the limit?
+`some true`: certainly (the file is longer than the limit); `some false`: nothing is written;
+`none`: it depends on the length of the file, which the symbolic model does not know. -/
+def faultBites (limit : Nat) (st st' : State) : Option Bool :=
+  match st'.groups.filter (fun p => lookup p.1 st.groups ≠ some p.2) with
+  | [] => some false
+  | written => if written.all (fun p => limit < p.2.desc.sizeLowerBound) then some true else none
+
+/-- `apiHandler` while every write of a definition file fails -/
+def handleFault (fx : Fixes) (st : State) (r : Request) : Outcome × State :=
+  let (out, st') := handle fx st r
+  if wroteGroupFile st st' then (.resp (httpError .other), st) else (out, st')
+
+/-! ### Groups that are live in memory (engine op `live`)
+
+`group.GetDescription(name)` first asks the table of live groups: `g := Get(name)`; if there is one
+and `descriptionUnchanged(name, g.Description())`, the cached description is returned, otherwise the
+file is read.  Everything above works with `getDescription` = "read the file"; Props/C17Live.lean
+proves that `getDescriptionLive` returns the same at every state that requests, fixture writes and
+`group.Add` can reach (versions identify contents), so the live table is kept by the engine only to
+predict `group.Add` and `.stats`. -/
+
+/-- what a live group keeps of the definition it was created from (or last refreshed with): the
+file it was read from, that file's version (size and modification time) with the upgraded
+description, and whether the group is an automatic subgroup -/
+structure Cached where
+  key : String
+  file : GroupFile
+  isSub : Bool
+  deriving DecidableEq, Repr, Inhabited
+
+/-- `descriptionUnchanged(name, desc)`: the NAME still resolves (`getDescriptionFile(name, true,
+os.Stat)`) to the file the description was read from, and that file has the same size and
+modification time -/
+def descriptionUnchanged (gs : List (String × GroupFile)) (name : String) (c : Cached) : Bool :=
+  match getFile gs name true with
+  | some (k, f, _) => k == c.key && f.ver == c.file.ver
+  | none => false
+
+/-- `GetDescription` with a table of live groups: the cached description if it is unchanged,
+otherwise the file is read (the live group itself is refreshed by `group.Add`/`Update` only) -/
+def getDescriptionLive (live : List (String × Cached)) (st : State) (name : String) : Option (String × GroupFile × Bool) :=
+  match lookup name live with
+  | some c =>
+    if descriptionUnchanged st.groups name c then some (c.key, c.file, c.isSub)
+    else readDescription st.groups name true
+  | none => readDescription st.groups name true
+
+/-- the definition is (re)read for a live group: `readDescription(name, true)`; a group whose
+definition cannot be read any more is dropped (`deleteUnlocked`; the groups here have no clients) -/
+def readLive (live : List (String × Cached)) (st : State) (name : String) : Bool × List (String × Cached) :=
+  match readDescription st.groups name true with
+  | some (k, f, s) => (true, upsert name { key := k, file := f, isSub := s } live)
+  | none => (false, erase name live)
+
+/-- `group.Add(name, nil)`: whether it succeeded, and the table of live groups afterwards -/
+def addLive (live : List (String × Cached)) (st : State) (name : String) : Bool × List (String × Cached) :=
+  match lookup name live with
+  | some c => if descriptionUnchanged st.groups name c then (true, live) else readLive live st name
+  | none => readLive live st name
 
 end Galene.Api
